@@ -67,7 +67,7 @@ struct RunData {
   // 0: executor zeroed and bound with orc_executor_set_program(); 1: the way orcc-generated wrappers do it:
   // an uninitialised (here: seeded garbage) OrcExecutor in which only program / code, n, m, arrays, strides and
   // parameters are assigned -- counters, unused slots and the cached entry points hold garbage
-  int exstyle = 0;
+  int exstyle = 0;   // (2: heap executor from orc_executor_new / orc_executor_free, program-attached runs only)
   uint64_t exgarbage = 0;
   size_t len[ORC_N_VARIABLES] = {0};          // bytes of each array that belong to the run (rows, padding, slack)
 };
